@@ -43,6 +43,21 @@ def _impl_case(case):
                 fail = f'encoding not well formed: {list(bs)}'
             elif t == 'sysex' and (bs[-1] != 0xf7 or tuple(bs[1:-1]) != tuple(d['data'])):
                 fail = f'sysex framing wrong: {list(bs)}'
+            else:
+                # every separator the API documents, with the time argument; and what bytes() returned belongs to the
+                # caller: changing it must not change what any message encodes to afterwards
+                for sep in (' ', '', ':', '-', ', '):
+                    m5 = mido.Message.from_hex(m.hex(sep), time=time, sep=sep) if sep else None
+                    if m5 is not None and (m5 != m or m5.time != time):
+                        fail = f'from_hex(hex({sep!r}), time={time!r}, sep={sep!r}) = {vars(m5)} differs from {vars(m)}'
+                        break
+                if fail is None:
+                    bs.append(0x55)
+                    bs[0] = 0
+                    again = mido.Message(t, time=time, **d).bytes()
+                    if list(again) != ref or list(m.bytes()) != ref:
+                        fail = (f'after the caller changed the list returned by bytes(), bytes() of an equal message is {list(again)} '
+                                f'and of the same message {list(m.bytes())} instead of {ref}')
     except Exception as e:  # no exception is acceptable on a valid message
         enc_line = dec_line = 'err ' + type(e).__name__
         fail = f'raised {type(e).__name__}: {e}'
